@@ -79,6 +79,8 @@ class RecSandbox(core.Sandbox):
         res = super().run(argv, plan, cwd, tz, timeout, config)
         if config is not None or plan.get("config"):
             self.ctx.bump("user_configuration_file", configured=1, fired=1)
+        if plan.get("nofile"):
+            self.ctx.bump("descriptor_limit", configured=1, fired=1)
         ctx = self.ctx
         ctx.execs += 1
         ctx.wall_exec += res.wall
@@ -273,7 +275,7 @@ def generic_shrinks(case):
                 c = copy.deepcopy(case)
                 getp(c, ref)[key] = []
                 yield c
-        for key in ("out_accept", "config"):
+        for key in ("out_accept", "config", "nofile"):
             if p.get(key):
                 c = copy.deepcopy(case)
                 getp(c, ref)[key] = None
